@@ -44,6 +44,7 @@ PANICKING_API = {
     "time::Duration::from_secs_f64": "float-range",
     "char::from_digit": "radix",
     "num::<impl u8>::from_str_radix": "radix",
+    "util::MsgBuffer::set_length": "msgbuf",
     "process::exit": "exit",
     "process::abort": "exit",
     "thread::spawn": "spawn",
